@@ -1,5 +1,6 @@
 import I18n.Lemmas.IconvDlGenerated
 import I18n.Lemmas.EncodingsFnGenerated
+import I18n.Lemmas.LingFnGenerated
 import I18n.Props.C20
 /-!
 # C20 — the tie by translation (first part): `lib/iconv.py` REGENERATED from the source is the model's loop
@@ -391,5 +392,60 @@ example : EncodingsFn.is_portable_encoding portableEncodings (EPy.lit "ISO_8859-
 
 example : EncodingsFn.decode (fun _ _ => .unicodeError) [1, 2, 3] (EPy.lit "idna") = .error (.unicodeDecode 0 3) := by
   rw [generated_encodings_decode_eq_model]; rfl
+
+/-! # Third part: `lib/ling.py` `Language.get_unrepresentable_characters` REGENERATED from the source is the model's
+
+`I18n.Generated.LingFn` is rewritten from the repository's current `lib/ling.py` (`Language._simple_format`,
+`Language.get_unrepresentable_characters`) by `tools/translate/ling2lean.py` on every run.  `_get_characters` and `str.encode` are
+parameters on both sides (`Model/LingPy.lean`). -/
+
+open I18n.Charset.LGen
+
+/-- `Language._simple_format(territory=…)` as regenerated: `ll`, or `ll_CC` when asked for and a territory is present -/
+theorem generated_simple_format_eq_model (l : LPy.Language) (territory : Bool) :
+    LingFn._simple_format l territory =
+      .ok (match l.territory_code with
+           | some t => if territory then l.language_code ++ [95] ++ t else l.language_code
+           | none => l.language_code) :=
+  simple_format_eq l territory
+
+/-- **`get_unrepresentable_characters(encoding, strict=…)` as regenerated = `languageCharacters` then `getUnrepresentable`** — for every
+    language object, every content of data/languages (`sect`), every encoder: `None` when neither `ll_CC` nor `ll` lists characters;
+    `.error ()` of the model is an exception other than UnicodeError escaping -/
+theorem generated_get_unrepresentable_characters_eq_model (sect : Name → Option Name → Option (List Nat)) (encode : List Nat → Enc)
+    (l : LPy.Language) (strict : Bool) :
+    LingFn.get_unrepresentable_characters (fun code m s => (sect code m).map (getCharacters s)) encode l strict =
+      (match languageCharacters sect strict l.language_code l.territory_code l.modifier with
+       | none => .ok none
+       | some cs => (ofModel (getUnrepresentable encode cs)).map some) := by
+  rw [get_unrepresentable_eq]
+  simp only [languageCharacters]
+  cases l.territory_code with
+  | none => cases sect l.language_code l.modifier <;> rfl
+  | some t =>
+    simp only []
+    cases sect (l.language_code ++ [95] ++ t) l.modifier with
+    | some v => rfl
+    | none => cases sect l.language_code l.modifier <;> rfl
+
+/-- **unrepresentable_iff**, of the regenerated method: for a codec that raises only Unicode errors on these texts and encodes a
+    concatenation only if it encodes every piece, the result is exactly the listed characters that cannot be encoded -/
+theorem unrepresentable_iff_generated (sect : Name → Option Name → Option (List Nat)) (encode : List Nat → Enc)
+    (l : LPy.Language) (strict : Bool) (chars : List (List Nat))
+    (hchars : languageCharacters sect strict l.language_code l.territory_code l.modifier = some chars)
+    (hno : ∀ c ∈ chars, encode c = .ok ∨ encode c = .encodeError false)
+    (hj : encode chars.flatten ≠ .crash)
+    (hpieces : encode chars.flatten = .ok → ∀ c ∈ chars, encode c = .ok) :
+    LingFn.get_unrepresentable_characters (fun code m s => (sect code m).map (getCharacters s)) encode l strict =
+      .ok (some (chars.filter fun c => encode c != .ok)) := by
+  rw [generated_get_unrepresentable_characters_eq_model, hchars]
+  simp only []
+  rw [(C20.unrepresentable_iff encode chars hno hj hpieces).1]
+  rfl
+
+/-- the iconv(1) fall-back: the loop stops at the first character whose error reason starts with `iconv:` -/
+example : LingFn.get_unrepresentable_characters (fun _ _ _ => some [[97], [8364], [98], [8364]])
+    (fun t => if t.contains 8364 then .encodeError true else .ok) ⟨[100, 101], none, none⟩ false = .ok (some [[8364]]) := by
+  rfl
 
 end I18n.Props.C20Tie
